@@ -107,6 +107,8 @@ def check(ctx):
     from .c06 import ilots_after_l        # 'ilots' is a documented export attribute: it must not raise
     ctx.attempt(ilots_after_l)
     ctx.attempt(forward.check_all, module_suffixes=('containers.containers', 'tractwriter.tractwriter', 'plssdesc.plssdesc'))
+    # cell fidelity: a list attribute is written entry by entry, repeated entries included
+    ctx.attempt(common.dedup_idioms, [f for f in ctx.repo.funcs.values() if f.module.name.endswith(('containers.containers', 'tractwriter.tractwriter'))])
     # one row per tract: the collectors behind the writers keep every element
     ctx.attempt(common.no_dedup_on_insert, [f for f in ctx.repo.funcs.values() if f.module.name.endswith(('containers.containers', 'tractwriter.tractwriter'))])
 
